@@ -57,18 +57,22 @@ def c07(out, tier):
 BQ_SRC = ["markup5ever/util/buffer_queue.rs", "markup5ever/util/smallcharset.rs", "tendril/src/tendril.rs"]
 
 
+C13_QUICK_SHAPES = {"next_peek": 4, "pop_except": 4, "eat_eq": 3, "eat_ci": 3, "push_front": 4, "pop_then_eat": 2}
+
+
 def c13(out, tier):
     D = {
         "next_peek": ("peek/next return the first character of the concatenation; next consumes exactly it", "next, peek, push_back, pop_front"),
         "pop_except": ("pop_except_from returns one set member or the maximal non-empty non-member run of the first buffer", "pop_except_from, SmallCharSet::nonmember_prefix_len"),
         "eat_eq": ("eat(pat, ==) answers true/false/None exactly as a prefix comparison of the concatenation; consumes only on a match", "eat"),
         "eat_ci": ("eat(pat, eq_ignore_ascii_case) likewise", "eat"),
-        "push_front": ("push_front after 0..2 consumed characters re-inserts text ahead of everything unread", "push_front, next, peek"),
+        "push_front": ("push_front re-inserts text ahead of everything unread (quick: nothing consumed before; thorough: after 1-2 consumed characters, where the VecDeque ring buffer wraps)", "push_front, next, peek"),
         "pop_then_eat": ("pop_except_from followed by eat (front buffer partially consumed) still behaves as on the flat string", "pop_except_from, eat"),
     }
     hs = []
     for k, (d, fns) in D.items():
-        hs.append(H("c13_%s_q" % k, 900, d, "3 pushed buffers, 3-4 concrete length shapes of <= 3 bytes each (empty buffers included), all well-formed UTF-8 contents, all 2^64 character sets, all ASCII patterns of 2-3 bytes"))
+        for i in range(C13_QUICK_SHAPES[k]):
+            hs.append(H("c13_%s_q%d" % (k, i), 600, d, "3 pushed buffers of one concrete length shape (<= 3 bytes each, empty buffers included; one harness per shape), all well-formed UTF-8 contents, all 2^64 character sets, all ASCII patterns of 2-3 bytes"))
         if tier == "thorough":
             hs.append(H("c13_%s_t" % k, 3600, d, "3 pushed buffers, 4-6 concrete length shapes of <= 4 bytes each, all contents / sets / patterns of 4 bytes"))
     K.run_all(out, "bq", hs, BQ_SRC)
@@ -1085,10 +1089,14 @@ def tree_units(prop, tier):
     elif prop == "C04":
         cs = ["", "<table><tr>", "<select>", "<svg>", "<template>", "<b><p>", "<frameset>", "<math><annotation-xml>"]
         for c in cs:
-            add("%r then start tag (2 letters), text, end tag" % c, [c, "<", N2, ">", W1, "</", N1, ">y"])
-            add("%r then end tags" % c, [c, "</", N2, ">", "</", N1, ">", 2])
-        for cx in TREE_CONTEXTS[1:10]:
-            add("fragment in %s" % cx[1], ["</", N2, ">", "<", N1, ">", 2], {"context": list(cx)})
+            if q:
+                add("%r then start tag (2 letters), text, end tags" % c, [c, "<", N2, ">", W1, "</p></b>y"])
+                add("%r then end tag (2 letters), start tag, character" % c, [c, "</", N2, ">", "<p>", 1])
+            else:
+                add("%r then start tag (2 letters), text, end tag" % c, [c, "<", N2, ">", W1, "</", N1, ">y"])
+                add("%r then end tags" % c, [c, "</", N2, ">", "</", N1, ">", 2])
+        for cx in (TREE_CONTEXTS[1:10] if not q else TREE_CONTEXTS[1:7]):
+            add("fragment in %s" % cx[1], ["</", N2, ">", "<", N1, ">", 2] if not q else ["</", N1, ">", "<", N2, ">", 1], {"context": list(cx)})
     rnd = __import__("random").Random(C.seed())
     rnd.shuffle(units)
     units.sort(key=lambda u: -sum(2 if isinstance(x, tuple) and x[0] == "name" and x[1] >= 2 else 0 for x in u["shape"]))
